@@ -11,7 +11,7 @@ from ..worker import Worker, arg, unjson
 
 LEVEL = "exploration"
 RULE = ("cases = 1-8 heart-beat objects with intervals 1-4, scripts 'on my k-th beat do set_heart_beat(self|other, 0|n) / destruct(self|other) / "
-        "load-and-enable a new object / raise an error', plus the same actions between ticks; 5-40 ticks through the real backend loop. "
+        "load-and-enable a new object / raise an error / schedule a call_out that raises an error', plus the same actions between ticks; 5-40 ticks through the real backend loop. "
         "non-trivial = an enable / disable / destruct happened *during* a round (classified by list position relative to the running object); "
         "distinct = history hash")
 ASSUMPTIONS = ["a global sequence counter in the mudlib orders heart_beat invocations and actions exactly",
@@ -25,6 +25,8 @@ int seq;
 mixed *alog = ({ });
 int next() { return ++seq; }
 void note(mixed *x) { alog += ({ x }); }
+void boom() { error("call_out fault\n"); }
+void boom_later(int n) { call_out("boom", n); }
 mixed *actions() { return alog; }
 mixed *status() {
   mixed *r = ({ });
@@ -61,10 +63,16 @@ mixed act(string kind, int target, int n) {
   case "error":
     "/t/c11seq"->note(({ kind, file_name(this_object()), target, n, s0, "/t/c11seq"->next(), 0 }));
     error("heart beat fault\n");
+  case "cofault":
+    // a fault that is nobody's heart beat: a call_out (of this object, or of the daemon, which never has a heart beat) raises an error
+    // in one of the next ticks, after that tick's heart beats have run
+    if (target % 2) call_out("boom", n); else "/t/c11seq"->boom_later(n);
+    break;
   }
   "/t/c11seq"->note(({ kind, file_name(this_object()), target, n, s0, "/t/c11seq"->next(), res }));
   return res;
 }
+void boom() { error("call_out fault\n"); }
 void add_script(int beat, string kind, int target, int n) {
   if (!script[beat]) script[beat] = ({ });
   script[beat] += ({ ({ kind, target, n }) });
@@ -89,7 +97,7 @@ def histories(draw):
             events.append(dict(ev="act", actor=k, kind="shb", target=k, n=draw(st.sampled_from([1, 1, 2, 3, 4]))))
     nscripts = draw(st.integers(0, 6))
     for _ in range(nscripts):
-        kind = draw(st.sampled_from(["shb", "shb", "shb", "destruct", "error"]))
+        kind = draw(st.sampled_from(["shb", "shb", "shb", "destruct", "error", "cofault"]))
         events.append(dict(ev="script", actor=draw(st.integers(0, nobj - 1)), beat=draw(st.integers(1, 5)), kind=kind,
                            target=draw(st.integers(0, NOBJ - 1)) if kind == "shb" else draw(st.integers(0, nobj - 1)),
                            n=draw(st.sampled_from([0, 0, 1, 1, 2, 3, 4]))))
@@ -97,7 +105,7 @@ def histories(draw):
     for _ in range(nticks):
         events.append(dict(ev="tick"))
         if draw(st.integers(0, 5)) == 0:
-            kind = draw(st.sampled_from(["shb", "shb", "destruct"]))
+            kind = draw(st.sampled_from(["shb", "shb", "destruct", "cofault"]))
             events.append(dict(ev="act", actor=draw(st.integers(0, nobj - 1)), kind=kind, target=draw(st.integers(0, NOBJ - 1)),
                                n=draw(st.sampled_from([0, 1, 2, 3, 4]))))
     return dict(nobj=nobj, events=events)
@@ -260,6 +268,8 @@ def evaluate_case(ctx, w, case):
             classes.add("in-round:" + a[0] + (":self" if a[1] == "t/c11_%d" % a[2] else ":other"))
     if error_ticks:
         classes.add("error-in-round")
+    if any(a[0] == "cofault" for a in alog):
+        classes.add("call_out-fault")
     return None, classes
 
 
